@@ -1,11 +1,13 @@
 // libFuzzer target for C20, result-file side (T4): any byte string opened as an Eclipse result file.
 // byte 0 selects the reader and the file extension (formatted / unformatted); the rest is the file.
 // Oracle as in fz_deck.cpp: return or std::exception.
+#include <ecl_drive.hpp>
 #include <opm/io/eclipse/EclFile.hpp>
 #include <opm/io/eclipse/EGrid.hpp>
 #include <opm/io/eclipse/ERft.hpp>
 #include <opm/io/eclipse/ERst.hpp>
 #include <opm/io/eclipse/ESmry.hpp>
+#include <opm/io/eclipse/ExtESmry.hpp>
 #include <opm/io/eclipse/EInit.hpp>
 
 #include <cstdint>
@@ -42,116 +44,132 @@ extern "C" int LLVMFuzzerInitialize(int*, char***) {
     return 0;
 }
 
-static void put(const std::string& path, const uint8_t* d, size_t n) {
-    std::ofstream o(path, std::ios::binary | std::ios::trunc);
-    o.write(reinterpret_cast<const char*>(d), (std::streamsize)n);
-}
-
-template <class F> static void read_all(F& f) {
-    auto list = f.getList();
-    for (std::size_t i = 0; i < list.size() && i < 64; ++i) {
-        try {
-            switch (std::get<1>(list[i])) {
-            case E::INTE: f.template get<int>((int)i); break;
-            case E::REAL: f.template get<float>((int)i); break;
-            case E::DOUB: f.template get<double>((int)i); break;
-            case E::LOGI: f.template get<bool>((int)i); break;
-            case E::CHAR:
-            case E::C0NN: f.template get<std::string>((int)i); break;
-            default: break;
-            }
-            ++g_arrays;
-        } catch (const std::exception&) {}
-    }
-}
-
 extern "C" int LLVMFuzzerTestOneInput(const uint8_t* data, size_t size) {
     if (size < 1) return 0;
     ++g_n;
     if ((g_n & 0x3ff) == 0) dump_counters();
-    const unsigned kind = data[0] % 10;
-    const uint8_t* d = data + 1;
-    const size_t n = size - 1;
-    try {
-        switch (kind) {
-        case 0: case 1: {
-            const std::string p = g_dir + (kind ? "/F.FDATA" : "/F.DATAX");
-            put(p, d, n);
-            E::EclFile f(p, E::EclFile::Formatted{kind == 1});
-            ++g_opened;
-            read_all(f);
-            f.is_ix();
-            break;
-        }
-        case 2: case 3: {
-            const std::string p = g_dir + (kind == 3 ? "/F.FUNRST" : "/F.UNRST");
-            put(p, d, n);
-            E::ERst r(p);
-            ++g_opened;
-            for (int s : r.listOfReportStepNumbers()) {
-                try {
-                    auto arrays = r.listOfRstArrays(s);
-                    r.loadReportStepNumber(s);
-                    g_arrays += arrays.size();
-                    for (auto& a : arrays) r.occurrence_count(std::get<0>(a), s);
-                } catch (const std::exception&) {}
-            }
-            break;
-        }
-        case 4: case 5: {
-            const std::string p = g_dir + (kind == 5 ? "/F.FEGRID" : "/F.EGRID");
-            put(p, d, n);
-            E::EGrid g(p);
-            ++g_opened;
-            auto dims = g.dimension();
-            if ((long)dims[0] * dims[1] * dims[2] < 100000 && dims[0] > 0 && dims[1] > 0 && dims[2] > 0) {
-                g.load_grid_data();
-                std::array<double, 8> X, Y, Z;
-                try { g.getCellCorners(0, X, Y, Z); } catch (const std::exception&) {}
-                try { g.activeCells(); g.get_mapaxes(); g.get_mapunits(); } catch (const std::exception&) {}
-                ++g_arrays;
-            }
-            break;
-        }
-        case 6: case 7: {
-            // summary: spec part and data part split at the first 0x1C byte
-            size_t cut = 0;
-            while (cut < n && d[cut] != 0x1c) ++cut;
-            const bool fmt = kind == 7;
-            const std::string spec = g_dir + (fmt ? "/S.FSMSPEC" : "/S.SMSPEC");
-            const std::string uns = g_dir + (fmt ? "/S.FUNSMRY" : "/S.UNSMRY");
-            put(spec, d, cut);
-            if (cut < n) put(uns, d + cut + 1, n - cut - 1); else put(uns, d, 0);
-            E::ESmry s(spec, false);
-            ++g_opened;
-            s.loadData();
-            auto kws = s.keywordList();
-            for (std::size_t i = 0; i < kws.size() && i < 32; ++i) {
-                try { s.get(kws[i]); s.get_unit(kws[i]); ++g_arrays; } catch (const std::exception&) {}
-            }
-            try { s.dates(); s.startdate(); } catch (const std::exception&) {}
-            break;
-        }
-        case 8: {
-            const std::string p = g_dir + "/F.RFT";
-            put(p, d, n);
-            E::ERft r(p);
-            ++g_opened;
-            for (auto& rep : r.listOfRftReports()) {
-                try { r.listOfRftArrays(std::get<0>(rep), std::get<1>(rep)); ++g_arrays; } catch (const std::exception&) {}
-            }
-            break;
-        }
-        default: {
-            const std::string p = g_dir + "/F.INIT";
-            put(p, d, n);
-            E::EInit in(p);
-            ++g_opened;
-            try { in.list_arrays(); ++g_arrays; } catch (const std::exception&) {}
-            break;
-        }
-        }
-    } catch (const std::exception&) {
-    }
+    static ecldrive::Counters cnt;
+    ecldrive::drive(data[0] % 11, data + 1, size - 1, g_dir, cnt);
+    g_opened = cnt.opened;
+    g_arrays = cnt.arrays;
     return 0;
+}
+
+
+// ---------------------------------------------------------------------------------------------------------------
+// Structure-aware mutation for the unformatted readers: the input is walked as Fortran records
+// ([16][name8 count4 type4][16] then data blocks [len][...][len]) and ONE framing field is changed - a block's
+// leading or trailing length marker, an array's element count, its type string (incl. C0nn widths), the header
+// length, a truncation at a record boundary, an array duplicated or dropped, an integer payload word replaced by an
+// extreme value.  Byte-level mutation (libFuzzer's own) is used for every third call and for formatted inputs.
+// ---------------------------------------------------------------------------------------------------------------
+#include <cstring>
+#include <random>
+
+extern "C" size_t LLVMFuzzerMutate(uint8_t* data, size_t size, size_t max_size);
+
+namespace {
+inline int32_t be32(const uint8_t* p) { return int32_t((uint32_t(p[0]) << 24) | (uint32_t(p[1]) << 16) | (uint32_t(p[2]) << 8) | uint32_t(p[3])); }
+inline void put32(uint8_t* p, int32_t v) { uint32_t u = uint32_t(v); p[0] = u >> 24; p[1] = u >> 16; p[2] = u >> 8; p[3] = u; }
+struct Arr { size_t hdr; size_t end; int32_t count; std::vector<size_t> blocks; };     // blocks: offsets of leading markers
+
+int elsize_of(const uint8_t* t) {
+    if (!std::memcmp(t, "INTE", 4) || !std::memcmp(t, "REAL", 4) || !std::memcmp(t, "LOGI", 4)) return 4;
+    if (!std::memcmp(t, "DOUB", 4) || !std::memcmp(t, "CHAR", 4)) return 8;
+    if (t[0] == 'C' && t[1] == '0') { int n = (t[2] - '0') * 10 + (t[3] - '0'); return (n > 0 && n < 100) ? n : -1; }
+    return -1;      // MESS and unknown types carry no data
+}
+
+std::vector<Arr> walk(const uint8_t* d, size_t n) {
+    std::vector<Arr> out;
+    size_t p = 1;
+    while (p + 24 <= n && out.size() < 4096) {
+        if (be32(d + p) != 16 || be32(d + p + 20) != 16) {
+            // the summary inputs join two files with one 0x1C byte: step over it once
+            if (d[p] == 0x1c && p + 25 <= n && be32(d + p + 1) == 16) { ++p; continue; }
+            break;
+        }
+        Arr a; a.hdr = p; a.count = be32(d + p + 12);
+        const int es = elsize_of(d + p + 16);
+        p += 24;
+        long long remaining = (es > 0 && a.count > 0) ? (long long)a.count * es : 0;
+        while (remaining > 0 && p + 8 <= n) {
+            const int32_t len = be32(d + p);
+            if (len <= 0 || p + 8 + size_t(len) > n) { remaining = -1; break; }
+            a.blocks.push_back(p);
+            p += 8 + size_t(len);
+            remaining -= len;
+        }
+        a.end = p;
+        out.push_back(a);
+        if (remaining != 0) break;
+    }
+    return out;
+}
+} // namespace
+
+extern "C" size_t LLVMFuzzerCustomMutator(uint8_t* data, size_t size, size_t max_size, unsigned int seed) {
+    std::minstd_rand rng(seed);
+    auto pick = [&](size_t n) { return n ? size_t(rng()) % n : 0; };
+    if (size < 30 || pick(3) == 0) return LLVMFuzzerMutate(data, size, max_size);
+    const unsigned kind = data[0] % 11;
+    const bool unformatted = kind == 0 || kind == 2 || kind == 4 || kind == 6 || kind == 8 || kind == 9 || kind == 10;
+    if (!unformatted) return LLVMFuzzerMutate(data, size, max_size);
+    const auto arrs = walk(data, size);
+    if (arrs.empty()) return LLVMFuzzerMutate(data, size, max_size);
+    const Arr& a = arrs[pick(arrs.size())];
+    static const int32_t deltas[] = {-8, -4, -1, 1, 3, 4, 8, 16};
+    static const char* types[] = {"INTE", "REAL", "DOUB", "LOGI", "CHAR", "MESS", "C008", "C012", "C000", "C099", "C001", "X231", "C0AB"};
+    switch (pick(9)) {
+    case 0:     // leading marker of a data block
+        if (!a.blocks.empty()) { uint8_t* q = data + a.blocks[pick(a.blocks.size())]; put32(q, be32(q) + deltas[pick(8)]); return size; }
+        break;
+    case 1:     // trailing marker of a data block
+        if (!a.blocks.empty()) { uint8_t* q = data + a.blocks[pick(a.blocks.size())]; uint8_t* t = q + 4 + be32(q); put32(t, be32(t) + deltas[pick(8)]); return size; }
+        break;
+    case 2: {   // element count
+        static const int32_t counts[] = {0, 1, -1, 105, 106, 1000, 1001, 2147483647, -2147483647 - 1, 65536};
+        const size_t c = pick(14);
+        put32(data + a.hdr + 12, c < 10 ? counts[c] : (c < 12 ? a.count + deltas[pick(8)] : a.count * 2));
+        return size;
+    }
+    case 3:     // type string
+        std::memcpy(data + a.hdr + 16, types[pick(13)], 4);
+        return size;
+    case 4: {   // header framing
+        put32(data + a.hdr + (pick(2) ? 20 : 0), (int32_t[]){0, 15, 17, 24, -16}[pick(5)]);
+        return size;
+    }
+    case 5: {   // cut at / just behind a record boundary
+        size_t cut = pick(2) ? a.end : a.hdr + (size_t[]){0, 4, 12, 20, 24, 28}[pick(6)];
+        if (cut > 1 && cut <= size) return cut;
+        break;
+    }
+    case 6: {   // duplicate the array
+        const size_t len = a.end - a.hdr;
+        if (len > 0 && size + len <= max_size) {
+            std::memmove(data + a.end + len, data + a.end, size - a.end);
+            std::memmove(data + a.end, data + a.hdr, len);
+            return size + len;
+        }
+        break;
+    }
+    case 7: {   // drop the array
+        const size_t len = a.end - a.hdr;
+        if (len > 0 && len < size - 1) { std::memmove(data + a.hdr, data + a.end, size - a.end); return size - len; }
+        break;
+    }
+    default:    // an extreme word inside the payload (counts, indices, dates live in INTE arrays)
+        if (!a.blocks.empty()) {
+            const size_t b = a.blocks[pick(a.blocks.size())];
+            const int32_t len = be32(data + b);
+            if (len >= 4) {
+                static const int32_t vals[] = {0, -1, 1, 2147483647, -2147483647 - 1, 1000000000, 13, 32, 366, 100000, 9999};
+                put32(data + b + 4 + 4 * pick(size_t(len) / 4), vals[pick(11)]);
+                return size;
+            }
+        }
+        break;
+    }
+    return LLVMFuzzerMutate(data, size, max_size);
 }
